@@ -90,6 +90,17 @@ class Ctx:
     def fold(self, node, m=None, env=None, self_class=None):
         return self.a.folder.fold(node, m, env, self_class)
 
+    def func(self, modname, qual, inline=True):
+        """Anchor function; by default the view with calls to private helpers of the same module expanded."""
+        from . import inline as _inl
+        m = self.a.repo.mod(modname)
+        fn = m.func(qual)
+        return _inl.inlined(self.a, m, fn) if inline else fn
+
+    def inl(self, fn):
+        from . import inline as _inl
+        return _inl.inlined(self.a, fn._module, fn)
+
     def _where(self, node):
         if isinstance(node, tuple):
             m, qual, line = node
@@ -98,7 +109,8 @@ class Ctx:
         qual = getattr(node, '_func', None) or getattr(node, '_qual', '') or ''
         if isinstance(node, (ast.FunctionDef, ast.ClassDef, ast.AsyncFunctionDef)):
             qual = node._qual
-        return (m.path if m else '?', getattr(node, 'lineno', 0), m.name if m else '?', qual)
+        line = getattr(node, '_orig_lineno', None) or getattr(node, 'lineno', 0)
+        return (m.path if m else '?', line, m.name if m else '?', qual)
 
     def ok(self, node, construct, why=''):
         f, ln, mod, qual = self._where(node)
